@@ -146,6 +146,27 @@ Proof.
 Qed.
 Print Assumptions C15_errors_have_no_effect.
 
+(* the three outcomes of any call in the domain: it returns a value (then it was not one of the listed invalid calls),
+   or it returns an error (then it was, and nothing changed), or it panics - the transaction aborts - and then one
+   of the explicit range assertions of [panic_reason] failed (C15/ProofsLive.v: an addition, subtraction or product
+   of the ghost quantities beyond LegacyDec's 2^256, an integer part beyond 256 bits, or an interval-API reference
+   point above the accumulator value) *)
+Theorem C15_every_call_outcome : forall tr st rv o, hist tr st -> dom tr o -> recv_ok st rv o ->
+  match o_res (step st rv o) with
+  | Ok _ => ~ invalid tr o
+  | Err _ => invalid tr o /\ o_st (step st rv o) = st
+  | Panic => ~ invalid tr o /\ panic_reason tr st o
+  end.
+Proof.
+  intros tr st rv o H1 H2 H3. destruct (C15_errors_have_no_effect tr st rv o H1 H2 H3) as [E1 E2].
+  pose proof (panic_has_reason tr st rv o H1 H2 H3) as P.
+  destruct (o_res (step st rv o)) eqn:E.
+  - intros K. apply E2 in K. destruct K as [e K]. discriminate.
+  - split; [apply E2; eauto|eapply E1; reflexivity].
+  - split; [intros K; apply E2 in K; destruct K as [e K]; discriminate|apply P; reflexivity].
+Qed.
+Print Assumptions C15_every_call_outcome.
+
 (* several accumulators in one store.  The world model [wstep] identifies accumulators and positions by abstract
    ids, i.e. it assumes that different (accumulator, position) pairs have different store keys.  For the key layout
    of prefix.go (C15/Keys.v, constants regenerated from /repo) this holds when accumulator names contain no '|'
